@@ -119,7 +119,10 @@ def run : List String → String
       let evs := showEvents os
       (d', out ++ [op ++ ":" ++ res ++ ":" ++ (if evs = "" then "" else evs ++ " ") ++ showTables d'.s])) ({ s := init }, [])
     ";".intercalate (out ++ ["end::"])
-  | ["stream", _, n, plan] =>
+  | [kind, _, n, plan] =>
+    if kind ≠ "stream" ∧ kind ≠ "streampre" then "bad-op" else
+    -- "streampre": every message was created while the stream was healthy; a broken stream then refuses the send itself
+    let refused := if kind = "stream" then "n" else "e"
     match n.toNat? with
     | none => "bad-op"
     | some n =>
@@ -130,7 +133,7 @@ def run : List String → String
         match fuel with
         | 0 => (s, res)
         | fuel + 1 =>
-          if s.broken then go fuel s outs (res ++ "n") else
+          if s.broken then go fuel s outs (res ++ refused) else
           -- the Writes this frame consumes: up to the first failing one, at most two
           let o1 := outs.headD .full
           let (ws, rest) := if o1 ≠ .full then ([o1], outs.drop 1) else ([o1, (outs.drop 1).headD .full], outs.drop 2)
